@@ -37,6 +37,7 @@ def plan (tier, seed):
     out += [dict (kind = 'inproc',  i = i, seed = seed) for i in range (16 * k)]
     out += [dict (kind = 'routes',  i = i, seed = seed) for i in range (30 * k)]
     out += [dict (kind = 'live',    i = i, seed = seed) for i in range (20 * k)]
+    out += [dict (kind = 'stale',   i = i, seed = seed) for i in range (16 * k)]
     out += [dict (kind = 'sections', i = i, seed = seed) for i in range (24 * k)]
     out += [dict (c, kind = 'routes') for c in corpus.plan_cases (seed, tier, 1, 1)]
     return out
@@ -451,6 +452,50 @@ def check_routes (c):
                 , nontrivial = bool (spec ['loads']) or len (spec ['geo']) > 1, margin = worst, monitors = mon, violations = viol)
 # end def check_routes
 
+def check_stale (c):
+    """ a field asked for after the frequency of the object was changed and before it was solved again: either it is
+        refused, or it is the field of that frequency (what a fresh object gives) - never the field of the currents of
+        the frequency before """
+    rng  = np.random.default_rng ([c ['seed'], 149, c ['i']])
+    spec = loaded_model (rng, cli_sources = True, nobj_min = 1)
+    MM   = common.repo ()
+    m    = gen.build (spec)
+    observe.solve (m)
+    zen, azi = MM.Angle (10.0, 35.0, 3), MM.Angle (0.0, 120.0, 3)
+    common.guarded (lambda: m.compute_far_field (zen, azi), 'compute_far_field')
+    f1   = spec ['f'] * float (rng.choice ([2.0, 0.5, 1.3, 1.01]))
+    m.f  = f1
+    viol, mon = [], {}
+    kinds = []
+    lam  = gen.C_MHZ / f1
+    for what in ('far', 'near'):
+        try:
+            if what == 'far':
+                m.compute_far_field (zen, azi)
+                got = np.array (m.far_field.gain)
+            else:
+                m.compute_near_field ([2 * lam, lam, 2 * lam], [1.0, 1.0, 1.0], [1, 1, 1])
+                got = np.array (m.e_field)
+        except Exception as e:
+            kinds.append (what + ':refused')
+            mon ['stale.refused'] = mon.get ('stale.refused', 0) + 1
+            continue
+        fresh = gen.build (dict (spec, f = f1))
+        observe.solve (fresh)
+        if what == 'far':
+            fresh.compute_far_field (MM.Angle (10.0, 35.0, 3), MM.Angle (0.0, 120.0, 3))
+            want = np.array (fresh.far_field.gain)
+        else:
+            fresh.compute_near_field ([2 * lam, lam, 2 * lam], [1.0, 1.0, 1.0], [1, 1, 1])
+            want = np.array (fresh.e_field)
+        kinds.append (what + ':answered')
+        mon ['stale.answered'] = mon.get ('stale.answered', 0) + 1
+        d = float (np.abs (got - want).max () / max (np.abs (want).max (), 1e-300)) if what == 'near' else float (np.abs (got - want).max ())
+        if d > (1e-9 if what == 'near' else 1e-6):
+            viol.append (dict (monitor = 'stale', key = 'field-of-stale-currents', msg = '%s field asked for after the frequency was set from %.6g to %.6g MHz without solving again: answered with values that differ by %.3g from those of the new frequency' % (what, spec ['f'], f1, d), measured = d, allowed = 1e-6))
+    return dict (status = 'violation' if viol else 'held', sig = 'stale|%s|%s' % ('+'.join (kinds), 'gnd' if spec ['media'] else 'free'), nontrivial = True, monitors = mon, violations = viol)
+# end def check_stale
+
 def check_live (c):
     """ several model objects alive in one process, built first and computed in turns: what one object returns does not
         depend on what was done with another """
@@ -539,5 +584,5 @@ def check_sections (c):
 # end def check_sections
 
 def check (c):
-    return dict (live = check_live, sections = check_sections, history = check_history, sweep = check_sweep, procs = check_procs, inproc = check_inproc, routes = check_routes) [c ['kind']] (c)
+    return dict (stale = check_stale, live = check_live, sections = check_sections, history = check_history, sweep = check_sweep, procs = check_procs, inproc = check_inproc, routes = check_routes) [c ['kind']] (c)
 # end def check
